@@ -914,6 +914,8 @@ impl Store {
                 let own_node = node.get_or_create_child(key.to_owned()).0;
                 Store::nmerge(own_node, other_node, Some(&key), insertions, &path);
             }
+            // the imported tree may contain leaves without a value, don't keep them as empty nodes
+            node.trim();
         }
     }
 
